@@ -13,6 +13,55 @@ pub struct Case {
     tree: TreeSpec,
     opts: ArchOpts,
     threads: u8,
+    /// Some(k): the k-th tree that is really embedded at compile time with `embed!`
+    #[serde(default)]
+    fixed: Option<u8>,
+}
+
+/// The real compile-time expansion of `embed!` on the committed trees.
+static FIXED: [RawEmbedded<'static>; 12] = [
+    assets_manager::source::embed!("embed_trees/t0"),
+    assets_manager::source::embed!("embed_trees/t1"),
+    assets_manager::source::embed!("embed_trees/t2"),
+    assets_manager::source::embed!("embed_trees/t3"),
+    assets_manager::source::embed!("embed_trees/t4"),
+    assets_manager::source::embed!("embed_trees/t5"),
+    assets_manager::source::embed!("embed_trees/t6"),
+    assets_manager::source::embed!("embed_trees/t7"),
+    assets_manager::source::embed!("embed_trees/t8"),
+    assets_manager::source::embed!("embed_trees/t9"),
+    assets_manager::source::embed!("embed_trees/t10"),
+    assets_manager::source::embed!("embed_trees/t11"),
+];
+
+/// An independent walk of a directory into the tree model (names contain no dots except before the extension).
+fn model_of_dir(root: &std::path::Path) -> Model {
+    fn walk(dir: &std::path::Path, id: &str, m: &mut Model) {
+        m.dirs.insert(id.to_string());
+        let mut any = false;
+        for e in std::fs::read_dir(dir).into_iter().flatten().flatten() {
+            any = true;
+            let name = e.file_name().to_str().unwrap_or("").to_string();
+            let p = e.path();
+            if p.is_dir() {
+                let cid = if id.is_empty() { name.clone() } else { format!("{id}.{name}") };
+                walk(&p, &cid, m);
+            } else {
+                let (stem, ext) = match name.rfind('.') {
+                    Some(n) => (&name[..n], &name[n + 1..]),
+                    None => (&name[..], ""),
+                };
+                let fid = if id.is_empty() { stem.to_string() } else { format!("{id}.{stem}") };
+                m.files.insert((fid, ext.to_string()), std::fs::read(&p).unwrap_or_default());
+            }
+        }
+        if !any && !id.is_empty() {
+            m.empty_dirs.insert(id.to_string());
+        }
+    }
+    let mut m = Model::default();
+    walk(root, "", &mut m);
+    m
 }
 
 /// Compares one source with the model. Returns a description of the first difference.
@@ -191,17 +240,64 @@ impl Prop for C04 {
     }
 
     fn strategy(&self, _tier: Tier) -> BoxedStrategy<Value> {
-        (trees::tree_strategy(14), trees::arch_opts_strategy(), 1u8..5).prop_map(|(tree, opts, threads)| to_case(&Case { tree, opts, threads })).boxed()
+        (trees::tree_strategy(14), trees::arch_opts_strategy(), 1u8..5).prop_map(|(tree, opts, threads)| to_case(&Case { tree, opts, threads, fixed: None })).boxed()
     }
 
     fn enumerate(&self, _tier: Tier) -> Vec<Value> {
-        // the 12 trees that are really embedded at compile time are also checked as ordinary cases
-        Vec::new()
+        // the 12 committed trees that are really embedded at compile time with embed!
+        (0..12u8)
+            .map(|k| {
+                to_case(&Case {
+                    tree: TreeSpec { entries: Vec::new() },
+                    opts: ArchOpts { order: 0, dir_members: DirMembers::All, dot_prefix: false, deflate_mask: 0, file_backed: false },
+                    threads: 2,
+                    fixed: Some(k),
+                })
+            })
+            .collect()
+    }
+
+    fn enumerate_note(&self, _tier: Tier) -> String {
+        "the 12 committed trees under harness/embed_trees, embedded at compile time by the real embed! macro: the static table is compared with an independent walk of the directory and with the run-time evaluation of the macro's expansion function".into()
     }
 
     fn run(&self, case: &Value) -> Outcome {
         let c: Case = from_case(case);
         let mut out = Outcome::new();
+        if let Some(k) = c.fixed {
+            let k = k as usize % FIXED.len();
+            let dir = std::path::Path::new(concat!(env!("CARGO_MANIFEST_DIR"), "/embed_trees")).join(format!("t{k}"));
+            let m = model_of_dir(&dir);
+            let e = Embedded::from(FIXED[k]);
+            check_concurrently("embedded(compile-time)", &e, &m, c.threads, &mut out);
+            if !out.failed() {
+                // the run-time evaluation of the expansion function gives the same table
+                match trees::expand_embedded(&dir) {
+                    Ok(owned) => {
+                        let mut a: Vec<((String, String), Vec<u8>)> = FIXED[k].files.iter().map(|((i, x), b)| ((i.to_string(), x.to_string()), b.to_vec())).collect();
+                        let mut b = owned.files.clone();
+                        a.sort();
+                        b.sort();
+                        let da: std::collections::BTreeSet<String> = FIXED[k].dirs.iter().map(|(d, es)| format!("{d}:{es:?}")).collect();
+                        let db: std::collections::BTreeSet<String> = owned
+                            .dirs
+                            .iter()
+                            .map(|(d, es)| {
+                                let es: Vec<DirEntry> = es.iter().map(|(is_dir, i, x)| if *is_dir { DirEntry::Directory(i) } else { DirEntry::File(i, x) }).collect();
+                                format!("{d}:{es:?}")
+                            })
+                            .collect();
+                        if a != b || da != db {
+                            out.fail("embedded-routes-differ", format!("tree t{k}: the table compiled by embed! and the run-time evaluation of its expansion function differ"));
+                        }
+                    }
+                    Err(e) => out.fail("expand:embedded", format!("[embedded] the embed! expansion failed on the committed tree t{k}: {e}")),
+                }
+            }
+            out.nontrivial = true;
+            out.label("compile-time-embed");
+            return out;
+        }
         let m = Model::from_spec(&c.tree);
         let dir = trees::tmpdir("c04");
         let root = dir.join("root");
@@ -292,5 +388,35 @@ impl Prop for C04 {
 
     fn required_labels(&self) -> Vec<&'static str> {
         vec!["implicit-directories", "shuffled-members", "dot-prefix", "long-path", "dir-and-file-share-id", "empty-directory"]
+    }
+}
+
+/// (maintenance) Generates the fixed trees embedded at compile time, from fixed seeds.
+pub fn generate_fixed_trees(dir: &std::path::Path) {
+    use proptest::strategy::ValueTree;
+    use proptest::test_runner::{Config, RngAlgorithm, TestRng, TestRunner};
+    let strat = trees::tree_strategy(12);
+    for k in 0..12u8 {
+        let mut seed = [0u8; 32];
+        seed[0] = k + 1;
+        seed[7] = 0xE5;
+        let mut runner = TestRunner::new_with_rng(Config { failure_persistence: None, ..Config::default() }, TestRng::from_seed(RngAlgorithm::ChaCha, &seed));
+        let spec = strat.new_tree(&mut runner).unwrap().current();
+        let m = Model::from_spec(&spec);
+        let d = dir.join(format!("t{k}"));
+        let _ = std::fs::remove_dir_all(&d);
+        std::fs::create_dir_all(&d).unwrap();
+        // keep contents small, and git cannot store empty directories: give them a marker the model knows about
+        let mut m2 = m.clone();
+        for ((_, _), b) in m2.files.iter_mut() {
+            b.truncate(64);
+        }
+        for e in m.empty_dirs.iter() {
+            m2.files.insert((format!("{e}.keep"), "txt".into()), b"k".to_vec());
+        }
+        m2.write_disk(&d).unwrap();
+        if m2.files.is_empty() {
+            std::fs::write(d.join("only.txt"), b"only").unwrap();
+        }
     }
 }
